@@ -21,11 +21,12 @@ type E1Config struct {
 	LockYields   bool
 	EmptyReads   bool
 	EmptyHeavy   bool // about every other read returns (0, nil)
+	Stats        bool // CollectStats on the client connection and the server
 }
 
 func (c E1Config) String() string {
 	return fmt.Sprintf("softC=%v softS=%v split=%d wbuf=%d manual=%v smax=%d rmax=%d inact=%s cap=%d tcp=%v serve=%v lockY=%v emptyR=%v%s",
-		c.SoftC, c.SoftS, c.Split, c.WBuf, c.Manual, c.StreamMax, c.ReaderMax, c.Inactivity, c.NetCap, c.TCP, c.Serve, c.LockYields, c.EmptyReads, map[bool]string{true: "(heavy)"}[c.EmptyHeavy])
+		c.SoftC, c.SoftS, c.Split, c.WBuf, c.Manual, c.StreamMax, c.ReaderMax, c.Inactivity, c.NetCap, c.TCP, c.Serve, c.LockYields, c.EmptyReads, map[bool]string{true: "(heavy)"}[c.EmptyHeavy]+map[bool]string{true: " stats"}[c.Stats])
 }
 
 // ---- program ---------------------------------------------------------------
@@ -50,6 +51,7 @@ const (
 	OpJoin
 	OpSendErr // handler only: stream.SendError directly (rare)
 	OpDelay   // let Size scheduling points pass
+	OpSleep   // sleep Size x 100 ms of simulated time
 )
 
 var opNames = []string{"Send", "Recv", "RecvAll", "CloseSend", "Close", "Flush", "WaitCtx", "Join", "SendErr", "Delay"}
@@ -72,6 +74,9 @@ func (o Op) String() string {
 			return fmt.Sprintf("SendUndecodable(%d,s%d#%d)", o.Size, o.Sender, o.Seq)
 		}
 		return fmt.Sprintf("Send(%d,s%d#%d)", o.Size, o.Sender, o.Seq)
+	}
+	if o.Kind == OpSleep {
+		return fmt.Sprintf("Sleep(%dms)", o.Size*100)
 	}
 	if o.Kind == OpDelay {
 		return fmt.Sprintf("Delay(%d)", o.Size)
@@ -130,6 +135,7 @@ type RPCSpec struct {
 
 	Cancel     bool // a canceller task cancels the RPC's context at an arbitrary instant
 	Deadline   bool // ... and the context ends as an expired deadline (Err() == DeadlineExceeded)
+	RespToo    bool // unary handler failing: it returns a response object together with its error
 	CancelDelay int // number of scheduling points the canceller lets pass first
 	Task       int  // client task issuing this RPC
 	Misbehaved bool // scripts were truncated / do not follow the conversation to its end
@@ -175,6 +181,9 @@ func (r *RPCSpec) String() string {
 		s += " ret=nil"
 	case RetErr:
 		s += fmt.Sprintf(" ret=err(code=%d,len=%d,depth=%d)", r.HErr.Code, len(r.HErr.Msg), r.HErr.Depth)
+		if r.RespToo {
+			s += "+resp"
+		}
 	case RetResp:
 		s += fmt.Sprintf(" ret=resp(%d)", r.Resp)
 	}
@@ -258,9 +267,10 @@ func e1ModeFor(prop string) E1Mode {
 		m.Duplex, m.BigP, m.SmallNet, m.MaxRPCs, m.CloserP, m.BadMsgP = 0.5, 0.3, 0.4, 3, 0.25, 0.03
 	case "C02":
 		m.MaxRPCs, m.MaxTasks, m.Misbehave, m.CancelP, m.ErrP, m.OnlyUnaryP, m.StormP = 6, 3, 0.4, 0.35, 0.3, 0.2, 0.25
+		m.MetaP = 0.3
 	case "C04":
 		m.MaxRPCs, m.CancelP, m.Duplex, m.StallP, m.SmallNet, m.Misbehave, m.CloserP, m.ServeCancelP = 2, 0.9, 0.6, 0.5, 0.5, 0.2, 0.6, 0.15
-		m.MaxTasks, m.OnlyUnaryP = 2, 0.15
+		m.MaxTasks, m.OnlyUnaryP = 2, 0.3
 	case "C05":
 		m.MaxRPCs, m.IOFaults, m.ErrP, m.Misbehave, m.Duplex, m.ServeP, m.NoInact, m.MetaP = 3, true, 0.2, 0.2, 0.2, 0, true, 0.3
 	case "C06":
@@ -272,8 +282,10 @@ func e1ModeFor(prop string) E1Mode {
 		m.MaxRPCs, m.ErrP, m.UnknownP, m.Misbehave, m.SmallNet, m.ServeCancelP, m.Duplex = 4, 0.7, 0.1, 0.25, 0.3, 0.1, 0.15
 	case "C11":
 		m.MaxRPCs, m.MetaP, m.CancelP, m.Misbehave, m.ForceSoftC = 6, 0.7, 0.35, 0.3, -1
+		m.MaxTasks = 2
 	case "C12":
 		m.MaxRPCs, m.CloseFaults, m.Duplex, m.StallP, m.ServeP, m.NoInact, m.CloserP, m.SmallNet, m.Misbehave, m.PooledP = 3, 0, 0.4, 0.4, 0.5, true, 0.5, 0.3, 0.3, 0.2
+		m.ErrP = 0.25
 	case "C15":
 		m.MaxRPCs, m.MaxTasks, m.CancelP, m.Misbehave, m.ErrP, m.PooledP, m.OnlyUnaryP, m.Duplex = 5, 3, 0.4, 0.3, 0.2, 1.0, 0.3, 0.2
 	case "C13":
@@ -332,6 +344,7 @@ func (g *e1gen) drawConfig() E1Config {
 	c.LockYields = g.chance(0.5)
 	c.EmptyReads = g.chance(0.2)
 	c.EmptyHeavy = c.EmptyReads && g.chance(0.35)
+	c.Stats = g.chance(0.2)
 	return c
 }
 
@@ -515,6 +528,37 @@ func (g *e1gen) conversation(r *RPCSpec) {
 			dir = 1 - dir
 		}
 	}
+	// a long run of small messages behind a large one, in one direction (the
+	// connection reader gives its packet buffer back after such a run)
+	if g.chance(0.08) && r.Shape != ShUnary {
+		r.COps, r.HOps = nil, nil
+		cseq, hseq = 0, 0
+		big := []int{600, 1500, 4200, 5000}[g.pick(4)]
+		if g.cfg.NetCap > 0 && g.cfg.NetCap < 100 {
+			big = 300
+		}
+		n := 9 + g.pick(6)
+		small := func() int { return []int{0, 1, 12, 13}[g.pick(4)] }
+		if r.Shape == ShSStream || (r.Shape == ShBidi && g.chance(0.5)) {
+			r.HOps = append(r.HOps, Op{Kind: OpSend, Size: big, Seq: hseq})
+			r.COps = append(r.COps, Op{Kind: OpRecv})
+			hseq++
+			for i := 0; i < n; i++ {
+				r.HOps = append(r.HOps, Op{Kind: OpSend, Size: small(), Seq: hseq})
+				r.COps = append(r.COps, Op{Kind: OpRecv})
+				hseq++
+			}
+		} else {
+			r.COps = append(r.COps, Op{Kind: OpSend, Size: big, Seq: cseq})
+			r.HOps = append(r.HOps, Op{Kind: OpRecv})
+			cseq++
+			for i := 0; i < n; i++ {
+				r.COps = append(r.COps, Op{Kind: OpSend, Size: small(), Seq: cseq})
+				r.HOps = append(r.HOps, Op{Kind: OpRecv})
+				cseq++
+			}
+		}
+	}
 	// graceful ending: client half-closes and reads until EOF, handler
 	// reads until EOF and returns.
 	r.COps = append(r.COps, Op{Kind: OpCloseSend}, Op{Kind: OpRecvAll})
@@ -631,6 +675,13 @@ func (g *e1gen) misbehave(r *RPCSpec) {
 		}
 		r.HOps = ops
 	}
+	// a slow handler (matters with an inactivity timeout on the server)
+	if !r.Duplex && g.cfg.Inactivity > 0 && g.chance(0.5) {
+		at := g.pick(len(r.HOps) + 1)
+		ops := append([]Op{}, r.HOps[:at]...)
+		ops = append(ops, Op{Kind: OpSleep, Size: 5 + g.pick(20)})
+		r.HOps = append(ops, r.HOps[at:]...)
+	}
 	if g.chance(0.15) {
 		r.HOps = append(r.HOps, Op{Kind: OpWaitCtx})
 	}
@@ -738,6 +789,7 @@ func (g *e1gen) rpc(idx int) *RPCSpec {
 		r.HRet = RetErr
 		r.HErr = g.errSpec(idx)
 		r.Clean = false
+		r.RespToo = r.Shape == ShUnary && g.chance(0.25)
 	}
 	if r.flushClose && r.HRet != RetErr && g.chance(0.6) {
 		r.HRet = RetErr
